@@ -279,6 +279,9 @@ def tok_matches(exp, act, ratio, findings, where):
     ak = act["k"]
     if k in ("dim", "num", "pct"):
         if ak != k:
+            if exp.get("conv") and ak in ("num", "pct"):
+                # a converted length is a length in vw whatever its value (C10): `0rpx` is `0vw`, not the number 0
+                findings.append(("numbers", where, "rpx dimension %s emitted as a %s token, not a dimension in vw: %s" % (POOL[exp["n"]], ak, act["text"])))
             return "kind %s vs %s" % (k, ak)
         sp = POOL[exp["n"]]
         vin = num_value(sp)
